@@ -250,9 +250,11 @@ func fieldNameOf(fa *ssa.FieldAddr) string {
 }
 
 // af1: A.Sub(NewCoin(_, TruncateInt(Dec.Sub(NewDecCoinFromCoin(A).Amount, Y)))) with Y a product of record fields.
+var reDerefMark = regexp.MustCompile(`(^|[(,\[])\*`)
+
 func af1(aT, bT string) bool {
-	a := strings.ReplaceAll(aT, "~", "")
-	b := strings.ReplaceAll(bT, "~", "")
+	a := reDerefMark.ReplaceAllString(strings.ReplaceAll(aT, "~", ""), "$1")
+	b := reDerefMark.ReplaceAllString(strings.ReplaceAll(bT, "~", ""), "$1")
 	pre := "sdk.Dec.TruncateInt(sdk.Dec.Sub(sdk.NewDecCoinFromCoin(" + a + ").Amount,"
 	i := strings.Index(b, pre)
 	if i < 0 || !strings.HasPrefix(b, "sdk.NewCoin(") {
